@@ -548,9 +548,11 @@ class ChirpZTransformExecutor:
             # probe the cache to see if the key exists, else generate
             self.components[key]
         except KeyError:
-            m, n, M, N, K, L, alphay, alphax, shifty, shiftx, dtype, norm = key
-            Hrow, brow, arow = _prepare_czt_basis(m, M, K, shiftx, alphax, dtype, norm)
-            Hcol, bcol, acol = _prepare_czt_basis(n, N, L, shifty, alphay, dtype, norm)
+            # shift is (x, y): x runs along axis 1 (columns), y along axis 0 (rows)
+            m, n, M, N, K, L, alphay, alphax, shiftx, shifty, dtype, norm = key
+            # the "row" vectors vary along axis 0 (length m -> M): they need the y constants
+            Hrow, brow, arow = _prepare_czt_basis(m, M, K, shifty, alphay, dtype, norm)
+            Hcol, bcol, acol = _prepare_czt_basis(n, N, L, shiftx, alphax, dtype, norm)
             # those are all vectors, now add singleton dimensions for numpy
             # to broadcast correctly in the following steps
             brow = brow[:, np.newaxis]
